@@ -177,6 +177,21 @@ MemApiVerdict(e, pre, post) ==
                  (IF a.n = "Translate" /\ expout = "completed" /\ e.out = "completed" /\ (e.res # <<pa.ext, pa.pa>>)
                   THEN <<"paddress">> ELSE <<>>)]
 
+\* direct calls of Registers.cpsr_write_by_instr / spsr_write_by_instr (C12): act = [n, val, mask, ret]
+PsrApiVerdict(e, pre, post) ==
+  LET a == e.act
+      osys == IF Has(e.d, "osys") THEN e.d.osys ELSE <<>>
+      r == IF a.n = "CpsrWrite" THEN CPSRWriteByInstr(pre, a.val, a.mask, a.ret) ELSE SPSRWriteByInstr(pre, a.val, a.mask)
+      res == Result(r.s, "completed", TRUE, "psrapi:" \o a.n, X0(pre), FALSE, pre)
+      \* UNPREDICTABLE mode writes: whatever else happens, the mode field must not change
+      res2 == IF r.unp THEN [res EXCEPT !.dcC = IF a.n = "CpsrWrite" THEN <<MM, MM - 31>> ELSE Zero] ELSE res
+  IN IF e.out # "completed" THEN [id |-> e.id, v |-> <<"hosterror">>, path |-> res.path]
+     ELSE IF r.unp /\ a.n = "SpsrWrite" THEN
+          [id |-> e.id, path |-> "psrapi:unpredictable",
+           v |-> IF \A m \in SpsrNames : ~BadMode(pre.cfg, PM(post.spsr[m])) \/ PM(post.spsr[m]) = PM(pre.spsr[m]) THEN <<>> ELSE <<"badmode">>]
+     ELSE [id |-> e.id, path |-> IF r.unp THEN "psrapi:unpredictable" ELSE res.path,
+           v |-> StateDiff(r.s, post, res2) \o (IF osys # <<>> THEN <<"sys.other">> ELSE <<>>)]
+
 Verdict(e) ==
   LET pre  == Overlay(BaseState, e.pre)
       post == Overlay(pre, e.d)
@@ -191,6 +206,7 @@ Verdict(e) ==
            v |-> IF e.out = e.out2 /\ (~e.full \/ e.d = e.d2) THEN <<>> ELSE <<"cond-pass-differs">>]
      ELSE IF e.act.n \in {"MemAGet", "MemUGet", "MemUUnprivGet", "MemASet", "MemUSet", "MemUUnprivSet", "Translate"}
           THEN MemApiVerdict(e, pre, post)
+     ELSE IF e.act.n \in {"CpsrWrite", "SpsrWrite"} THEN PsrApiVerdict(e, pre, post)
      ELSE IF e.act.n \in {"Step", "Exec"} THEN StepVerdict(e, pre, post)
      ELSE IF e.act.n = "Reset" THEN ResetVerdict(e, pre, post)
      ELSE ExcVerdict(e, pre, post)
